@@ -14,7 +14,8 @@ TECHNIQUE = "property-based differential testing (Hypothesis): fill.numpy vs per
 RULE = (
     "Generated: a tree spec with >= 1 quantity-bearing node (no Bag range N2; Count transforms only with dict / record-array input), a column batch of "
     "0..16 rows over the tree's critical-value alphabets (edges +-ulps, NaN, +-inf), an input representation (dict of "
-    "arrays / numpy record array / pandas DataFrame with string-expression quantities), weights (omitted / positive "
+    "arrays / numpy record array / pandas DataFrame with string-expression quantities / a bare 1-D ndarray with "
+    "quantities over the datum itself), weights (omitted / positive "
     "scalar / zero scalar / non-negative array incl. zeros) and cut points splitting the batch into 1..4 successive "
     "fill.numpy calls (empty batches allowed).  Oracle: a twin tree filled row by row with the same weights has the "
     "same document up to zero-weight sparse bins/categories (counts bit-exact when every partial sum is representable, "
@@ -28,7 +29,34 @@ ASSUMPTIONS = [
     "string category arrays contain no None (numpy cannot sort it); DataFrames carry numeric/bool columns only",
 ]
 
-REPRS = ("dict", "dict", "recarray", "df")
+REPRS = ("dict", "dict", "recarray", "df", "bare")
+
+
+def _to_x(spec):
+    """The same tree with every quantity reading column x (for the bare-ndarray representation)."""
+    if isinstance(spec, dict):
+        out = {k: _to_x(v) for k, v in spec.items()}
+        if "col" in out and out.get("t") in ("num", "gt"):
+            if out["t"] == "num" and out["col"] == "w":  # a Select's weight column: select on the datum instead
+                out = {"t": "gt", "col": "x", "thr": 0.0, "fl": out.get("fl", "lambda")}
+            out["col"] = "x"
+        return out
+    if isinstance(spec, list):
+        return [_to_x(v) for v in spec]
+    return spec
+
+
+def bare_qhook(path, spec, q):
+    """Quantities over the datum itself: a float in the row-wise fill, the 1-D array in fill.numpy(array)."""
+    t = q["t"]
+    if t == "num":
+        a, b = q.get("a", 1.0), q.get("b", 0.0)
+        if a == 1.0 and b == 0.0:
+            return eval("lambda d: d", {})  # noqa: S307
+        return eval(f"lambda d, a={a!r}, b={b!r}: a * d + b", {})  # noqa: S307
+    if t == "gt":
+        return eval(f"lambda d, t={q['thr']!r}: d > t", {})  # noqa: S307
+    raise ValueError(t)
 
 
 def _qbearing(spec):
@@ -66,7 +94,15 @@ def strategy(tier):
     @st.composite
     def cases(draw):
         rep = draw(st.sampled_from(REPRS))
-        if rep == "df":
+        if rep == "bare":
+            opts = gen.TreeOpts(
+                max_depth=4 if thorough else 3,
+                kinds=[k for k in gen.ALL_KINDS if k != "Categorize"],
+                bag_ranges=("N",),
+                flavours=("lambda",),
+                count_transforms=True,
+            )
+        elif rep == "df":
             opts = gen.TreeOpts(
                 max_depth=4 if thorough else 3,
                 bag_ranges=("N",),
@@ -76,8 +112,10 @@ def strategy(tier):
         else:
             opts = gen.TreeOpts(max_depth=4 if thorough else 3, bag_ranges=("N", "S"), cat_cols=("s", "s", "b"), count_transforms=True)
         spec, focus = draw(gen.specs_and_focus(opts))
+        if rep == "bare":
+            spec = _to_x(spec)
         if not _qbearing(spec):
-            spec = {"k": "Branch", "values": [{"k": "Sum", "q": {"t": "num", "col": "z", "fl": opts.flavours[0]}}, spec]}
+            spec = {"k": "Branch", "values": [{"k": "Sum", "q": {"t": "num", "col": "x" if rep == "bare" else "z", "fl": opts.flavours[0]}}, spec]}
         crit = gen.critical_values(spec)
         exactish = draw(st.integers(0, 9)) < 7
         n = draw(st.integers(0, 16))
@@ -104,6 +142,8 @@ def strategy(tier):
 
 
 def make_data(rep, rows):
+    if rep == "bare":
+        return np.array([r["x"] for r in rows], dtype=np.float64)
     cols = {}
     for c in ("x", "y", "z", "w"):
         cols[c] = np.array([r[c] for r in rows], dtype=np.float64)
@@ -122,12 +162,16 @@ def make_data(rep, rows):
 
 
 def _snapshot(rep, data):
+    if rep == "bare":
+        return data.copy()
     if rep == "dict":
         return {k: v.copy() for k, v in data.items()}
     return data.copy()
 
 
 def _unchanged(rep, before, after):
+    if rep == "bare":
+        return before.dtype == after.dtype and np.array_equal(before, after, equal_nan=True) and np.array_equal(np.signbit(before), np.signbit(after))
     if rep == "df":
         return bool(before.equals(after)) and list(before.dtypes) == list(after.dtypes)
     names = before.keys() if rep == "dict" else before.dtype.names
@@ -172,8 +216,9 @@ def check(case):
     ref = model.evaluate(spec, list(zip(rows, roww)))
     pol = norm.Policy(exact=ref.exact, scale=1.0 + ref.notes["maxabs"])
 
-    hrow = build(spec)
-    hnp = build(spec)
+    bare = case["rep"] == "bare"
+    hrow = build(spec, bare_qhook if bare else None)
+    hnp = build(spec, bare_qhook if bare else None)
     chunks = gen.split(list(range(n)), case["cuts"])
     for ch in chunks:
         sub = [rows[i] for i in ch]
@@ -190,7 +235,7 @@ def check(case):
             hnp.fill.numpy(data, w)
         require(_unchanged(case["rep"], before, data), "input-modified", "fill.numpy modified the caller's data")
         for i in ch:
-            hrow.fill(rows[i], roww[i])
+            hrow.fill(rows[i]["x"] if bare else rows[i], roww[i])
 
     drow = norm.norm(hrow.toJson(), drop_zero=True)
     dnp = norm.norm(hnp.toJson(), drop_zero=True)
